@@ -34,6 +34,8 @@ use crate::rr::Type;
 
 mod query;
 mod rrl;
+#[cfg(feature = "verif_hooks")]
+pub mod verif_hooks;
 
 use rrl::Rrl;
 pub use rrl::{RrlParamError, RrlParams};
@@ -418,6 +420,8 @@ where
                 let now = SystemTime::now().try_into().expect(
                     "the system time cannot be expressed in the TSIG \"time signed\" field",
                 );
+                #[cfg(feature = "verif_hooks")]
+                let now = verif_hooks::tsig_now().unwrap_or(now);
                 let algorithm = match find_tsig_algorithm_or_write_error(
                     &tsig_rr,
                     now,
